@@ -1,5 +1,5 @@
 """Per-property decision procedures (DESIGN.md section 7)."""
-import itertools, json
+import itertools, json, re
 from . import core, run, streams
 from .core import log
 
@@ -421,7 +421,59 @@ def c10(ctx):
         assumptions=TCB + ["the unfolder as a consumer of extended events is covered by C13's streams, not here"])
 
 
+# ---------------------------------------------------------------- C16
+
+def c16(ctx):
+    rnd = ctx.rng
+    cases = []
+    shapes = gen_events(ctx, quick=True)
+    rnd.shuffle(shapes)
+    single = [s for s in shapes if len(s) == 1]
+    shapes = single + [s for s in shapes if len(s) > 1][: 2500 if ctx.quick else 8000]
+    n = 0
+    for shape in shapes:
+        sts = streams.fills(shape, 1, rnd)
+        if len(sts) > 6:
+            sts = rnd.sample(sts, 6)
+        for st in sts:
+            for fmt in ("json", "ubjson", "cborl"):
+                opts = dict(ALL_OPTS[n % 8]) if fmt == "json" else dict(OPTS0)
+                opts["ignf"] = True if fmt == "json" else opts["ignf"]
+                cases.append(case("C16", "fault", fmt, stream=st, opts=opts, sub=dict(target="enc"), origin="GenEvents"))
+                n += 1
+            if has_ext(shape):
+                cases.append(case("C16", "fault", "json", stream=st, sub=dict(target="adapter"), origin="GenEvents"))
+    for fmt in ("cborl", "ubjson", "json"):
+        rows = [r for r in GENS[fmt](ctx, "lang", quick=True) if r["class"] == "complete" and len(r["doc"]) >= 2]
+        rnd.shuffle(rows)
+        for j, r in enumerate(rows[: 1500 if ctx.quick else 10000]):
+            entry = ["parse", "reader", "decbytes"][j % 3]
+            kw = sched_variants(ctx, r["doc"], entry, rnd) if entry == "reader" else {}
+            kw.pop("eofwith", None)
+            cases.append(case("C16", "fault", fmt, doc=r["doc"], entry=entry, sub=dict(target="parser"), origin="Gen", **kw))
+    number(cases)
+    tf, st = core.run_harness(ctx, cases)
+    failed, nv = core.tlc_validate(ctx, "TraceCodec", tf)
+    nruns = 0
+    with open(tf) as f:
+        for line in f:
+            m = re.search(r'"total":(\d+)', line)
+            if m:
+                nruns += int(m.group(1))
+    return run.decide(
+        ctx, "TraceCodec", cases, tf, failed, nv, level_note="",
+        rule="fault enumeration driven by the model's cases: TLC-enumerated event streams x 3 encoders over a sink that fails from its "
+             "k-th write on, for EVERY k = 1..W (W measured by a fault-free run); TLC-enumerated valid documents x 3 parsers "
+             "(Parse / ParseReader with short reads / Decoder.Next) into a visitor that fails at its k-th event for EVERY k = 1..E; "
+             "extended-event streams into EnsureExtVisitor over a failing plain visitor likewise. TraceCodec!FaultVerdict requires the "
+             "error latch. Distinct = distinct (stream|document, target); non-trivial = at least 2 fault positions.",
+        nontrivial=lambda c: len(c["stream"]) + len(c["doc"]) >= 2,
+        extra_cov=dict(fault_runs=nruns),
+        assumptions=TCB + ["Fold as a producer with a failing visitor is covered by the gotype checks, not here"])
+
+
 PROPS = {
+    "C16": c16,
     "C10": c10,
     "C08": c08,
     "C07": c07,
